@@ -30,4 +30,4 @@ PY
   echo "$NAME $P exit=$RC violations=$V nofailinginput=$NF clauses=$CL"
 done
 git -C /repo worktree remove --force "$WT"
-(cd /verif/harness && VERIF_REPO=/repo sh gen_gomod.sh); git -C /verif checkout -- lean/ElysModel/Gen 2>/dev/null
+flock /verif/.check.lock sh -c "cd /verif/harness && VERIF_REPO=/repo sh gen_gomod.sh"; git -C /verif checkout -- lean/ElysModel/Gen 2>/dev/null
